@@ -200,6 +200,7 @@ type ClassF struct {
 	PageTop  float64 // content-box top, px
 	NTok     int
 	Features map[string]bool
+	LTR      bool // direction of the root element (C12: recto / verso)
 }
 
 // GenClassF builds a document: html(root) > body > k blocks.  pageCSS, if non-empty, replaces the
@@ -222,7 +223,7 @@ func GenClassF(r *rng.R, o GenOpts, pageCSS string) *ClassF {
 	}
 	root := &Box{St: rootSt, Kids: []*Box{body}}
 	root.St.Root = true
-	return &ClassF{HTML: g.buf.String(), Root: root, PageH: h, PageTop: 10, NTok: g.n, Features: g.feat}
+	return &ClassF{HTML: g.buf.String(), Root: root, PageH: h, PageTop: 10, NTok: g.n, Features: g.feat, LTR: true}
 }
 
 // Render builds the HTML of a hand-written abstract tree (corpus cases).  root = html box whose only
@@ -275,7 +276,7 @@ func Render(root *Box, pageCSS string, pageTop, pageH float64) *ClassF {
 	for _, k := range body.Kids {
 		rec(k, body)
 	}
-	return &ClassF{HTML: g.buf.String(), Root: root, PageH: pageH, PageTop: pageTop, NTok: g.n, Features: g.feat}
+	return &ClassF{HTML: g.buf.String(), Root: root, PageH: pageH, PageTop: pageTop, NTok: g.n, Features: g.feat, LTR: true}
 }
 
 // P and B are constructors for hand-written trees: a paragraph of n lines / a block.
